@@ -99,9 +99,11 @@ def check_values(ctx, case, out, avg, mode, selname, selkw, p):
             want = np.sum(sel.values / v, axis=axis) * wantvar
             got = avg[f"{lab}_{suf}"].values
             # the code reports the MC mean of the weighted set: it differs from the weighted mean of the calibrated temperature by sampling noise
-            tol = 8 * np.sqrt(np.maximum(gotvar, 0) / 60) + 1e-9
+            # (the realisations of one location are correlated along the averaged dimension through the shared parameters, so the standard
+            # error of the set mean is bounded by the largest per-cell variance, not by the variance of the weighted mean)
+            tol = 8 * np.sqrt(np.max(v, axis=axis) / 60) + 1e-9
             if not np.all(np.abs(got - want) <= tol):
-                ctx.violation(f"weighted-mean-wrong:{tag}:{lab}", f"{lab}_{suf} deviates from the inverse-variance weighted mean by {np.nanmax(np.abs(got - want))} (> 8 standard errors)", p)
+                ctx.violation(f"weighted-mean-wrong:{tag}:{lab}", f"{lab}_{suf} deviates from the inverse-variance weighted mean by {np.nanmax(np.abs(got - want))} (> 8 standard errors of the Monte Carlo mean)", p)
     if f.double and suf in ("avg2", "avgx2"):
         # tmpw of the weighted modes: the inverse-variance combination of the forward and backward weighted means, variance 1/(1/vf + 1/vb)
         vf_, vb_ = avg[f"tmpf_mc_{suf}_var"].values, avg[f"tmpb_mc_{suf}_var"].values
